@@ -747,10 +747,12 @@ func (ev *Evaluator) absStore(pos token.Pos, s AbsSeq, idx Lin, v Value) {
 }
 
 // carriedVars finds variables declared outside body and assigned inside it.
-func carriedVars(info *types.Info, body *ast.BlockStmt) []types.Object {
+func carriedVars(info *types.Info, body *ast.BlockStmt) ([]types.Object, map[types.Object]bool) {
 	seen := map[types.Object]bool{}
+	whole := map[types.Object]bool{}
 	var out []types.Object
 	add := func(e ast.Expr) {
+		direct := true
 		for {
 			switch x := e.(type) {
 			case *ast.ParenExpr:
@@ -758,6 +760,7 @@ func carriedVars(info *types.Info, body *ast.BlockStmt) []types.Object {
 				continue
 			case *ast.IndexExpr:
 				e = x.X
+				direct = false
 				continue
 			case *ast.SelectorExpr:
 				e = x.X
@@ -771,6 +774,11 @@ func carriedVars(info *types.Info, body *ast.BlockStmt) []types.Object {
 		id, ok := e.(*ast.Ident)
 		if !ok || id.Name == "_" {
 			return
+		}
+		if direct {
+			if o := info.Uses[id]; o != nil {
+				whole[o] = true
+			}
 		}
 		obj := info.Uses[id]
 		if obj == nil {
@@ -819,7 +827,13 @@ func carriedVars(info *types.Info, body *ast.BlockStmt) []types.Object {
 		}
 		return true
 	})
-	return out
+	elemOnly := map[types.Object]bool{}
+	for _, o := range out {
+		if !whole[o] {
+			elemOnly[o] = true
+		}
+	}
+	return out, elemOnly
 }
 
 func (ev *Evaluator) abstractInit(pos token.Pos, name string, t types.Type, entry Value, lc *loopCtx) Value {
@@ -909,7 +923,7 @@ func (ev *Evaluator) absLoop(env *Env, node ast.Node, body *ast.BlockStmt, keyOb
 	lc := &loopCtx{id: ev.nloop}
 	lc.idx = fmt.Sprintf("i#%d", lc.id)
 	lc.suffix = fmt.Sprintf("@L%d", lc.id)
-	carried := carriedVars(info, body)
+	carried, elemOnly := carriedVars(info, body)
 	// keep only variables visible in env (others belong to closures defined elsewhere)
 	var cvars []*Var
 	for _, o := range carried {
@@ -917,6 +931,9 @@ func (ev *Evaluator) absLoop(env *Env, node ast.Node, body *ast.BlockStmt, keyOb
 			continue
 		}
 		if v := env.lookup(o); v != nil {
+			if _, isAbs := v.V.(AbsSeq); isAbs && elemOnly[o] {
+				continue // element stores into an abstract sequence are recorded, the variable itself is unchanged
+			}
 			cvars = append(cvars, v)
 		}
 	}
